@@ -24,6 +24,26 @@ CLAIMED = {
             "The whole CheckHeader domain (fin x rsv x op x masked x len class x 16 states = 32768 cases) and all 65536 close codes are enumerated; TLC judges each logged verdict with WsCheck!Broken (accept iff no rule broken; the reported error names a broken rule) and CloseDataOk (accept/refuse/open classes; reason validity by the RFC 3629 table, model-checked against the streaming automaton). Close bodies for 11 codes x reason lengths 0..130 (ASCII and multi-byte crops) must equal CloseBody and parse back.",
             "Length classes {0,125,126,65536} stand for all lengths (the rules only compare with 125). Reasons are a fixed set of valid/invalid shapes (+ random in thorough).",
             "7/C03"),
+    "C06": ("model_checking",
+            "TLA+ property-level monitor (WsWriterMon) + exhaustive TLC exploration of the implementation-level writer model (WsWriterImpl) + trace validation of real wsutil.Writer call sequences against the monitor",
+            "WsWriterMon states what C06 permits as a monitor over public-call events (frames at the destination decoded by the harness' own codec). TLC explores WsWriterImpl (the real Write/ReadFrom/WriteThrough/Flush/Grow/Reset algorithm with scaled header thresholds) exhaustively for all call sequences up to depth 4 over boundary sizes, 7 buffer sizes, both sides, and checks Refines (no behaviour rejected by the monitor), HeaderFits, BufferBounds. The same monitor then validates traces of the real code: every depth-3 (thorough: 4) call sequence over 19 operations sized relative to live Available()/Size() on small-buffer configurations, plus seeded random 12-40 call sequences on 60 constructor/size configurations around the 125/126 and 65535/65536 thresholds.",
+            "Bounded: depth and alphabet as stated; open clauses of DESIGN 6.2 are not asserted. Trusts the harness' own frame codec (validated against FrameCodec in C01).",
+            "7/C06"),
+    "C08": ("model_checking",
+            "TLA+ monitor CtlStep + exhaustive TLC model of ControlWriter (CtlWriterImpl) + trace validation of the real ControlWriter",
+            "Control-writer part of C08 (reply content checks are added by the control-handler driver): every sequence of <= 4 writes over {0,1,62,63,124,125,126} bytes through NewControlWriter / NewControlWriterBuffer on both sides must never produce a non-final, continuation, oversized or wrongly masked frame, and overflowing writes must fail; TLC explores the scaled model exhaustively against the same monitor.",
+            "Write sizes are boundary values, not all sizes.",
+            "7/C08"),
+    "C16": ("fault_enumeration",
+            "TLA+ monitor clauses for sticky destination failure (WsWriterMon AfterFailure) + TLC model with failing destination + trace validation with every destination-write index failing",
+            "Writer side of C16: for every depth-2 (thorough: 3) call history over 9 operations on 3 configurations, every index of the destination write fails (whole / after 1 byte / after all bytes); the following 8 calls must all report an error (ReadFrom: open) and the destination must see no further byte. TLC checks the same on WsWriterImpl (AfterFailNoWrites, Refines).",
+            "Reader/handshake truncation is added by the reader and handshake drivers.",
+            "7/C16"),
+    "C18": ("model_checking",
+            "TLA+ invariant ResetIsFresh on WsWriterImpl (TLC, exhaustive) + monitor Fresh-after-Reset + lock-step twin comparison in trace validation",
+            "Writer part of C18: every history (depth 2, thorough 3, over 12 operations incl. growth, disabled flushing, extension, source error, failing destination) followed by Reset(side', op') or PutWriter/GetWriter and every depth-2 suffix must be accepted by the monitor restarted in its Fresh state and must equal, event by event, a freshly constructed writer of the same Size(). TLC proves ResetIsFresh on the model for all bounded histories.",
+            "Other resettable objects (compression writer/reader, mask/UTF-8 readers, negotiator, message reader) are added by their drivers.",
+            "7/C18"),
 }
 
 PENDING_REASON = "check not built yet in this round (work in progress; planned in DESIGN.md section 7)"
